@@ -76,6 +76,20 @@ def cases(tier, seed):
             o1, o2, o3 = (rnd.choice('@+-') for _ in range(3))
             quad.append(('arith', rnd.choice([(o1, (o2, a, b), (o3, c, d)), (o1, a, (o2, b, (o3, c, d))), (o1, (o2, (o3, a, b), c), d)])))
         out += quad
+    # operands used more than once: building one expression must not change an operand that another expression also uses
+    # (identical sub-expressions are the same Python object, exactly as `AB = A @ B; AB @ C + AB @ D` for a user)
+    shared = [('@', A, B), ('kmul', A, 0), ('@', D, A), ('+', A, D), ('neg', B), ('@', ('I', SPD), B), ('@', K, A)]
+    others = [A, B, D, K, ('@', B, D), ('+', B, D)]
+    for X in shared:
+        for Y, Z in itertools.product(others, repeat=2):
+            if Y is Z and tier == 'quick':
+                pass
+            out.append(('arith', ('-', ('@', X, Y), X)))
+            out.append(('arith', ('+', X, ('@', X, Y))))
+            out.append(('arith', ('+', ('@', X, Y), ('@', X, Z))))
+            out.append(('arith', ('-', ('+', X, Y), ('+', X, Z))))
+            out.append(('arith', ('@', ('@', X, Y), ('+', X, Z))))
+            out.append(('arith', ('+', ('@', Y, X), ('@', X, Z))))
     out += [('reject',), ('scalars',)]
     seen, res = set(), []
     for k in out:
